@@ -112,7 +112,7 @@ def register_class(out, cls):
         return
     attrs = {}
     for k, v in vars(cls).items():
-        if k.startswith("__") and k.endswith("__") and k not in ("__bool__", "__len__"):
+        if k.startswith("__") and k.endswith("__") and not (inspect.isfunction(v) or isinstance(v, (staticmethod, classmethod))):
             continue
         raw = v
         if isinstance(v, (staticmethod, classmethod)):
